@@ -88,6 +88,10 @@ def _ops(n_obj, domains):
         for attr, values in domains.items():
             for vi in range(len(values)):
                 ops.append(('set', attr, i, vi))
+        for attr, values in domains.items():
+            if any(isinstance(v, list) for v in values):
+                ops.append(('inplace', attr, i, 'append'))
+                ops.append(('inplace', attr, i, 'pop'))
     ops.append(('clear',))
     ops.append(('add_both',))
     ops.append(('update_objects',))
@@ -166,6 +170,23 @@ class TableSim:
                     return 'set-skipped', None
                 t.update_object(o)
             return 'set', None
+        if kind == 'inplace':
+            _, attr, i, how = op
+            o = self.objs[i]
+            cur = getattr(o, attr)
+            if not isinstance(cur, list):
+                return 'inplace-skipped', None
+            if how == 'append':
+                if len(cur) >= 3:
+                    return 'inplace-skipped', None
+                cur.append('z' if 'z' not in cur else 'a')   # in-place edit of the key list, then re-index
+            else:
+                if not cur:
+                    return 'inplace-skipped', None
+                cur.pop(0)
+            if i in self.members:
+                t.update_object(o)
+            return 'inplace', None
         if kind == 'clear':
             t.clear()
             self.members.clear()
